@@ -3,6 +3,7 @@ as a violation (oracle / reference / metamorphic failure on the IMPLEMENTATION) 
 is only a correspondence mismatch (model vs implementation)."""
 import os
 import re
+import shutil
 import subprocess
 
 import gen
@@ -258,6 +259,42 @@ def run_single(ctx, prop):
     sub = cases[::(7 if ctx.quick else 2)]
     for force, be in ((2, "rt2"), (3, "rt3")):
         single_call(ctx, prop, sub, force=force, model_be=be)
+
+
+# ---------------------------------------------------------------- C04 (static half)
+def check_cfail(ctx):
+    """the compile-fail client corpus harness/cfail against /repo's working tree: every bad_*.rs must be rejected
+       by the borrow checker, every ok_*.rs must compile"""
+    d = os.path.join(VERIF, "harness", "cfail")
+    lock = os.path.join(d, "Cargo.lock")
+    if not os.path.exists(lock):
+        shutil.copy(os.path.join(REPO, "Cargo.lock"), lock)
+    env = {"CARGO_TARGET_DIR": os.path.join(BUILD, "cargo", "cfail"), "CARGO_NET_OFFLINE": "true"}
+    borrowck = ("E0597", "E0505", "E0502", "E0499", "E0506", "E0716", "E0521", "E0515", "E0503", "E0713", "E0712")
+    for f in sorted(os.listdir(os.path.join(d, "src", "bin"))):
+        if not f.endswith(".rs"):
+            continue
+        name = f[:-3]
+        rc, out = sh(["cargo", "check", "--offline", "--bin", name], cwd=d, env=env, timeout=900)
+        ctx.evaluations += 1
+        codes = sorted(set(re.findall(r"error\[(E\d+)\]", out)))
+        ctx.count("cfail:" + ("rejected" if rc != 0 else "compiles"))
+        path = os.path.join(d, "src", "bin", f)
+        if name.startswith("bad_"):
+            ctx.nontrivial.add("cfail:" + name)
+            if rc == 0:
+                ctx.fail("client program " + path, "a client that keeps a parsed field alive after its buffer is freed or "
+                         "mutated COMPILES against the crate (it must be rejected by the borrow checker)", impl="cargo check: ok")
+            elif not any(c in borrowck for c in codes):
+                ctx.broken.append("cfail %s is rejected, but not by the borrow checker (%s): %s" % (name, ",".join(codes), out[-300:]))
+        else:
+            if rc != 0:
+                ctx.broken.append("cfail control %s does not compile: %s" % (name, out[-300:]))
+
+
+def run_C04(ctx):
+    run_single(ctx, "C04")
+    check_cfail(ctx)
 
 
 # ---------------------------------------------------------------- C01
